@@ -37,19 +37,24 @@ func GetAndUpdate(mu *sync.RWMutex, get GetFn, change ChangeFn, save SaveFn) (ol
 	if err != nil {
 		return nil, nil, err
 	}
+	verifAt("gau.read", mu)
 
 	newValue = proto.Clone(oldValue)
 	if newValue, err = change(oldValue, newValue); err != nil {
 		return oldValue, newValue, err
 	}
 
+	verifAt("gau.changed", mu)
 	mu.Lock()
 	defer mu.Unlock()
+	verifAt("gau.locked", mu)
 	oldValueAgain, _ := get()
 	if !proto.Equal(oldValue, oldValueAgain) {
+		verifAt("gau.aborted", mu)
 		return oldValue, newValue, status.Errorf(codes.Aborted, "concurrent update detected")
 	}
 
 	save(newValue)
+	verifAt("gau.saved", mu, newValue)
 	return oldValue, newValue, nil
 }
